@@ -42,7 +42,9 @@ import pyvc.specfuncs, pyvc.library, contracts
 from pyvc.solve import discharge
 e = Engine()
 for q in %r: e.verify(q)
-res = discharge(e.obligations, 8000, procs=4, use_cvc5=False)
+from pyvc.solve import retry_unknown
+res = discharge(e.obligations, 15000, procs=4, use_cvc5=False)
+retry_unknown(e.obligations, res, 45000)
 bad = sorted({ob.name for k, ob in e.obligations.items() if not ob.expect_sat and res[k]["status"] != "unsat"})
 print(json.dumps({"bad": bad, "undecided": e.undecided, "n": len(e.obligations)}))
 '''
